@@ -29,7 +29,9 @@ Definition xres_equiv (a b : res xval) : bool :=
 Definition xmismatch (c : xcase) : bool :=
   negb (xres_equiv (mx_set (xc_cls c) (xc_decl c) (xc_value c)) (xc_obs c)).
 
-Definition xsafe (c : xcase) : bool := mx_safe (xc_cls c) (xc_decl c) (xc_value c).
+(* the domain of C02_enum_mixin_agree: every candidate, every declared subset of the class' members (before the
+   repair of Enum._validate it excluded the candidates confused by ==, [mx_safe]) *)
+Definition xsafe (c : xcase) : bool := is_cand (xc_value c) && decl_in_class (xc_cls c) (xc_decl c).
 
 (* ------------------------------------------------------------------ arbitrary classes *)
 Record ccase := { cc_hist : list pycls; cc_cls : pycls; cc_value : cval; cc_obs : res cval }.
